@@ -62,6 +62,9 @@ def callable_op(fn_node, node):
 
     if isinstance(node, ast.Lambda):
         return lambda_op(node)
+    opmod = {"add": ast.Add, "sub": ast.Sub, "mul": ast.Mult, "truediv": ast.Div, "floordiv": ast.FloorDiv}
+    if isinstance(node, ast.Attribute) and isinstance(node.value, ast.Name) and node.value.id in ("operator", "_operator") and node.attr in opmod:
+        return opmod[node.attr], False
     if isinstance(node, ast.Name):
         for n in ast.walk(fn_node):
             if isinstance(n, ast.Assign) and isinstance(n.value, ast.Lambda) and any(isinstance(t, ast.Name) and t.id == node.id for t in n.targets):
